@@ -20,11 +20,11 @@ D = {
             "the Markdown side is the reference (its own correctness is C01/C04/C05/C06/C08); filesystem operations run in per-case jails on tmpfs",
             PBT + ": differential testing between API families over generated build programs (exhaustive linear extensions + rapid)"),
     "C04": ("exploration",
-            "Round-trip through independent decoders (encoding/json with DisallowUnknownFields and one-value-per-line, yaml.v3 multi-document decoder with KnownFields, go-toml/v2) must give back the merged forest; hostile names (quotes, colons, hashes, backslashes, keywords, control characters, Unicode separators, BOM) at every node position of every small shape, random forests beyond. Part wide: a root with 255..10000 children (subtrees below all / every 100th / the trailing children), alone and between small roots; names that look like encoder escapes; earlier operations run as on a colour terminal; thorough: second opinion by python3 decoders. The writer may be a terminal (pseudo terminal); names wrapped in colour sequences.",
+            "Round-trip through independent decoders (encoding/json with DisallowUnknownFields and one-value-per-line, yaml.v3 multi-document decoder with KnownFields, go-toml/v2) must give back the merged forest; hostile names (quotes, colons, hashes, backslashes, keywords, control characters, Unicode separators, BOM) at every node position of every small shape, random forests beyond. Part wide: a root with 255..10000 children (subtrees below all / every 100th / the trailing children), alone and between small roots; names that look like encoder escapes; earlier operations run as on a colour terminal; thorough: second opinion by python3 decoders. The writer may be a terminal (pseudo terminal); names wrapped in colour sequences. From-Root roots are also handed over as a copy by value (shared children).",
             "the decoders are the libraries gtree itself links (independent code paths: decoder vs encoder); names are valid UTF-8; the listed known finding (YAML + names containing a line break, yaml.v3) is excluded by construction and counted",
             PBT + ": round-trip oracle through independent decoders (exhaustive hostile-name placement + rapid)"),
     "C05": ("exploration",
-            "Visit sequence compared fact by fact (Row, Branch, Name, Level, Path, HasChild) with the renderer's facts; exactly k+1 callbacks and the identical error object when the callback fails at k; no visit after an iterator break; rows equal the text output. Exhaustive over forests <=5/8 nodes x every stop position x all six entry points (incl. deprecated aliases); random adds deep spines, long names, earlier operations on the same tree and nodes added between creating and ranging over an iterator. The failing callback returns the harness sentinel or a standard-library value (fs.SkipAll, io.EOF, context.Canceled, bufio.ErrTooLong ...); kept nodes are re-read after the walk; the iterator is ranged over twice; a second walk of the same tree runs (or is abandoned) while the first is at visit k. The caller appends to its option slice after an iterator was made; walk / grow / another operation / walk again.",
+            "Visit sequence compared fact by fact (Row, Branch, Name, Level, Path, HasChild) with the renderer's facts; exactly k+1 callbacks and the identical error object when the callback fails at k; no visit after an iterator break; rows equal the text output. Exhaustive over forests <=5/8 nodes x every stop position x all six entry points (incl. deprecated aliases); random adds deep spines, long names, earlier operations on the same tree and nodes added between creating and ranging over an iterator. The failing callback returns the harness sentinel or a standard-library value (fs.SkipAll, io.EOF, context.Canceled, bufio.ErrTooLong ...); kept nodes are re-read after the walk; the iterator is ranged over twice; a second walk of the same tree runs (or is abandoned) while the first is at visit k. The caller appends to its option slice after an iterator was made; walk / grow / another operation / walk again. The six facts of a visited node are read in a drawn permutation of their order and compared with a re-read after the walk.",
             "names are single valid path elements (the statement defines Path only for those)",
             PBT + ": reference-model oracle + differential (walk rows vs text output), exhaustive stop positions + rapid"),
     "C06": ("exploration",
@@ -36,7 +36,7 @@ D = {
             "the worker process confines itself with chroot(2) (we run as root); must-reject classes are derived from POSIX, not from gtree's validator; invalid UTF-8 and over-long names are don't-care for rejection",
             PBT + ": confinement oracle on a chroot-wide snapshot, exhaustive hostile-name placement + rapid"),
     "C08": ("exploration",
-            "missing/extra sets are computed from the snapshot (not with fs.WalkDir) and compared with the parsed error text: verdict iff, soundness of every listed path, exactness for the first differing root, purity (no diff), Mkdir(exts) -> Verify strict. Exhaustive: all subsets of node paths removed for forests <=4/5 nodes x strict x extra entry. Also verify / grow below a non-root node / verify again, targets named t and ~t, extra entries with non-UTF-8 names, and the file system root as target (/, //, /., /x/.. in the chrooted worker). Part wide: root directories with 1023..4100 entries.",
+            "missing/extra sets are computed from the snapshot (not with fs.WalkDir) and compared with the parsed error text: verdict iff, soundness of every listed path, exactness for the first differing root, purity (no diff), Mkdir(exts) -> Verify strict. Exhaustive: all subsets of node paths removed for forests <=4/5 nodes x strict x extra entry. Also verify / grow below a non-root node / verify again, targets named t and ~t, extra entries with non-UTF-8 names, and the file system root as target (/, //, /., /x/.. in the chrooted worker). Part wide: root directories with 1023..4100 entries. Extra files and node paths present as files may be hard links of one another.",
             "directory states are built from the tree (removal, kind flips, extras at any depth) or by gtree's own Mkdir; in massive mode only soundness is required (which root is reported depends on the schedule)",
             PBT + ": independent set-difference oracle over generated directory states + Mkdir->Verify round trip"),
     "C09": ("exploration",
@@ -60,7 +60,7 @@ D = {
             "concurrent schedules are sampled (GOMAXPROCS 1/2/4/16, Gosched between steps)",
             PBT + ": stateful model-based testing (rapid state machine), bounded-exhaustive histories, concurrent histories"),
     "C14": ("fault_enumeration",
-            "For each document: the reader fails after EVERY byte offset (two failure shapes, three chunkings) => errors.Is(err, E); the writer fails at EVERY write index (plain, short write, one-off) => non-nil error; all output modes x {From-Markdown, From-Root} x {simple, massive}, plus reader faults for walk/mkdir/verify. Reader/writer dynamic types (io.WriterTo, io.StringWriter, io.Closer, *bufio.Reader), a failing Write that reports the full count, and an empty regular file opened write-only as reader (EBADF). The error may arrive with the last bytes once; bare io.EOF / io.ErrUnexpectedEOF / io.ErrShortWrite as writer errors.",
+            "For each document: the reader fails after EVERY byte offset (two failure shapes, three chunkings) => errors.Is(err, E); the writer fails at EVERY write index (plain, short write, one-off) => non-nil error; all output modes x {From-Markdown, From-Root} x {simple, massive}, plus reader faults for walk/mkdir/verify. Reader/writer dynamic types (io.WriterTo, io.StringWriter, io.Closer, *bufio.Reader), a failing Write that reports the full count, and an empty regular file opened write-only as reader (EBADF). The error may arrive with the last bytes once; bare io.EOF / io.ErrUnexpectedEOF / io.ErrShortWrite as writer errors. One output case in twelve has a row of 4 000..60 000 bytes (rows above 32 KiB under writer faults).",
             "writer faults are observed through a recording writer; in massive mode the number of writes is that of the fault-free run of the same schedule class",
             "fault enumeration: reader failure at every byte offset, writer failure at every write index, over generated documents"),
     "C15": ("exploration",
